@@ -1,6 +1,8 @@
 import TwigProofs.Audit
+import TwigProofs.C01
 import TwigProofs.C04
 import TwigProofs.C13
 import TwigProofs.C14
 import TwigProofs.C15
+import TwigProofs.C19
 import TwigProofs.C20
